@@ -140,7 +140,7 @@ fn replace_leaves(v: &Value, path: &mut Vec<String>, out: &mut Vec<(String, Valu
             for (i, x) in a.iter().enumerate() { path.push(i.to_string()); replace_leaves(x, path, out, root); path.pop(); }
         }
         _ => {
-            for alt in [Value::Null, json!(true), json!(-1), json!(1e308), json!("x"), json!(""), json!([]), json!({}), json!("\u{e9}\u{0660}")] {
+            for alt in [Value::Null, json!(true), json!(-1), json!(1e308), json!(0.123456789), json!(1000.125), json!(1e-7), json!(123456789012345678u64), json!(-0.0), json!("x"), json!(""), json!([]), json!({}), json!("\u{e9}\u{0660}")] {
                 let mut r = root.clone();
                 let mut cur = &mut r;
                 for p in path.iter() { cur = if cur.is_array() { cur.get_mut(p.parse::<usize>().unwrap()).unwrap() } else { cur.get_mut(p.as_str()).unwrap() }; }
